@@ -119,6 +119,7 @@ typedef struct {
 	char dir[4096], tmpd[4096];
 	char tables[6][300]; int ntables; model_t tmodel[6];
 	char setfile[300]; int setver;
+	int nontable_lines_ever;            /* some version of the setfile named something that does not load as a table (observation O4: mtbl_fileset_partition is only called when none did) */
 	char junk[300], shortf[300], badoff[300], badlen[300];   /* badoff/badlen: a valid table whose index offset / index length prefix was made too large */
 	model_t universe;
 	uint64_t created[T_NTYPES];
@@ -146,15 +147,17 @@ static void ms_fail_or_merge(void *clos, const uint8_t *key, size_t lk, const ui
 	ms_merge_cb(clos, key, lk, v0, l0, v1, l1, mv, lmv);
 }
 
+static bool part_cb(const char *fname, void *clos) { (void)clos; size_t n = strlen(fname); return n > 6 && (fname[n - 6] & 1); }   /* t<digit>.mtbl: by digit parity */
+
 static void write_setfile(hist_t *h, rng_t *r)
 {
 	char tmp[400]; snprintf(tmp, sizeof tmp, "%s.tmp", h->setfile);
 	FILE *f = fopen(tmp, "w");
 	for (int i = 0; i < h->ntables; i++) if (rndp(r, 650)) { const char *b = strrchr(h->tables[i], '/'); if (rndp(r, 500)) fprintf(f, "%s\n", b + 1); else fprintf(f, "%s\n", h->tables[i]); }
 	if (rndp(r, 200)) fprintf(f, "does-not-exist.mtbl\n");
-	if (rndp(r, 200)) { const char *b = strrchr(h->junk, '/'); fprintf(f, "%s\n", b + 1); }
-	if (rndp(r, 200)) { const char *b = strrchr(rndp(r, 500) ? h->badlen : h->badoff, '/'); fprintf(f, "%s\n", b + 1); STAT("setfile.names_table_with_forged_index_extent"); }
-	if (rndp(r, 200)) fprintf(f, "\n");          /* blank line: resolves to the directory itself */
+	if (rndp(r, 200)) { const char *b = strrchr(h->junk, '/'); fprintf(f, "%s\n", b + 1); h->nontable_lines_ever = 1; }
+	if (rndp(r, 200)) { const char *b = strrchr(rndp(r, 500) ? h->badlen : h->badoff, '/'); fprintf(f, "%s\n", b + 1); STAT("setfile.names_table_with_forged_index_extent"); h->nontable_lines_ever = 1; }
+	if (rndp(r, 200)) { fprintf(f, "\n"); h->nontable_lines_ever = 1; }         /* blank line: resolves to the directory itself */
 	fclose(f);
 	h->setver++;
 	struct timespec ts[2] = {{2000000 + h->setver, 0}, {2000000 + h->setver, 0}};
@@ -339,6 +342,21 @@ static void step(hist_t *h, rng_t *r, int thorough)
 			life("life.fileset.created_or_dupped");
 		} else if (what == 1) { write_setfile(h, r); STAT("ops.fileset.setfile_rewritten"); }
 		else if (what == 2) { mtbl_fileset_reload(h->o[fi].p); STAT("ops.fileset.reload"); }
+		else if (what == 4 && rndn(r, 2) && !h->nontable_lines_ever) {
+			/* the deprecated partition call: two mergers over the fileset's readers, owned by the caller; read a little through each, destroy both at once */
+			struct mtbl_merger *m1 = NULL, *m2 = NULL;
+			mtbl_fileset_partition(h->o[fi].p, part_cb, NULL, &m1, &m2);
+			struct mtbl_merger *mm[2] = {m1, m2};
+			for (int q = 0; q < 2; q++) {
+				if (!mm[q]) { STAT("ops.fileset.partition_returned_null"); continue; }
+				struct mtbl_iter *it = mtbl_source_iter(mtbl_merger_source(mm[q]));
+				const uint8_t *k, *v; size_t lk, lv; int n = rndn(r, 6);
+				for (int j = 0; j < n && mtbl_iter_next(it, &k, &lk, &v, &lv) == mtbl_res_success; j++) {}
+				mtbl_iter_destroy(&it);
+				mtbl_merger_destroy(&mm[q]);
+			}
+			STAT("ops.fileset.partition");
+		}
 		else { mtbl_fileset_reload_now(h->o[fi].p); STAT("ops.fileset.reload_now"); }
 	} else {                                                    /* destroy something whose users are gone */
 		int c[MAXOBJ], n = 0;
